@@ -398,6 +398,21 @@ class Spec:
                 self.in_kind = "timeout"
                 self.classes.add("timeout_with_debt" if c.owing else "timeout_no_debt")
 
+    def feed_sleep(self, step):
+        """Real time passed beyond the configured timeout: every live instance's timer has fired."""
+        self.step = step
+        self.in_kind = "timeout"
+        self.in_client = None
+        self.reply_ctx = None
+        self.sleep_step = True
+        for c in self.cur.values():
+            if c.live and c.has_timer and c.expired is None:
+                c.expired = step
+                self.classes.add("real_timer_fired")
+                self.classes.add("timeout_with_debt" if c.owing else "timeout_no_debt")
+            elif not c.live and c.has_timer and c.expired is None:
+                self.classes.add("timer_of_finished_request_due")
+
     def snapshot_prereq(self, c):
         return {s: self.prereq_done(c, p) for s, p in self.conf.services.items() if p}
 
